@@ -206,6 +206,18 @@ def o_rotate(inp):
     r2 = np.asarray(O.q_rot(q.copy(), v.copy()), float)
     if cm.maxabs(r2, M.T @ v) > 1e-11 * sc:
         return {'tag': 'q_rot/not-inverse-rotation', 'observed': r2, 'expected': M.T @ v}
+    # q (0,v) q* through the implementation's own products taking a plain array operand (the pure quaternion (0,v) is not a
+    # unit quaternion and may be the zero vector: it must be multiplied, not validated)
+    pv = np.array([0.0, *v])
+    for name in ('product', 'q_prod'):
+        g = _products()[name]
+        try:
+            t = np.asarray(g(q.copy(), pv.copy()), float)
+            sw = np.asarray(O.q_prod(t, cm.qconj(q)), float)[1:]
+        except Exception as e:
+            return {'tag': f'{name}/sandwich-raises', 'observed': [type(e).__name__, str(e)[:100]]}
+        if sw.shape != (3,) or cm.bad(sw) or cm.maxabs(sw, M @ v) > 1e-11 * sc:
+            return {'tag': f'{name}/sandwich-differs-from-matrix', 'observed': sw, 'expected': M @ v}
     # 3xN arrays rotate column-wise
     A = np.stack([v, 2 * v, -v], axis=1)
     r3 = np.asarray(ahrs.Quaternion(q).rotate(A), float)
@@ -293,7 +305,58 @@ def o_state(inp):
     return r
 
 
-ORACLES = {'route': o_route, 'hom': o_hom, 'rotate': o_rotate, 'batch': o_batch, 'dtype': o_dtype, 'state': o_state}
+def _laid_out(M, layout):
+    """the same N x 4 values in a different memory layout"""
+    if layout == 'F':
+        return np.asfortranarray(M)
+    if layout == 'T':                       # transpose of a C-ordered 4 x N array (np.vstack([w, x, y, z]).T)
+        return np.ascontiguousarray(M.T).T
+    if layout == 'rowstride':               # every second row of a larger array
+        big = np.full((2 * M.shape[0], 4), 7.25)
+        big[::2] = M
+        return big[::2]
+    if layout == 'colstride':               # four columns of a wider array
+        big = np.full((M.shape[0], 9), -3.5)
+        big[:, 1:9:2] = M
+        return big[:, 1:9:2]
+    if layout == 'reversed':                # negative row stride
+        return np.ascontiguousarray(M[::-1])[::-1]
+    raise KeyError(layout)
+
+
+LAYOUTS = ('F', 'T', 'rowstride', 'colstride', 'reversed')
+
+
+def o_layout(inp):
+    """an N x 4 array is the same batch of quaternions whatever its memory layout: every route that reads the QuaternionArray
+    object, its .array, its components or the raw array gives the textbook matrix of row i"""
+    import ahrs
+    from ahrs.common import orientation as O
+    M = np.array(inp['rows'], dtype=float)
+    A = _laid_out(M, inp['layout'])
+    if not np.array_equal(A, M):
+        raise AssertionError('layout helper changed the values')
+    n = M.shape[0]
+    unit = M / np.linalg.norm(M, axis=1)[:, None]
+    spec = np.array([cm.Rspec(r) for r in unit])        # every route normalises first (theorem C01_routes_normalise_first)
+    Qa = ahrs.QuaternionArray(A)
+    views = {'asarray': np.asarray(Qa), 'array': Qa.array, 'wxyz': np.c_[Qa.w, Qa.x, Qa.y, Qa.z], 'to_array': Qa.to_array(), 'rows': np.array([np.asarray(Qa[i]) for i in range(n)])}
+    for k, v in views.items():
+        v = np.asarray(v, float)
+        if v.shape != (n, 4) or cm.maxabs(v, unit) > TOL:
+            return {'tag': f'QuaternionArray/{k}-differs-for-layout', 'observed': v, 'expected': unit}
+    got = {'QA_to_DCM': lambda: Qa.to_DCM(), 'DCM_fromq(object)': lambda: ahrs.DCM().from_quaternion(Qa), 'q2R(object)': lambda: O.q2R(Qa),
+           'DCM_fromq(raw)': lambda: ahrs.DCM().from_quaternion(A), 'q2R_v1(raw)': lambda: O.q2R(A, version=1), 'q2R_v2(raw)': lambda: O.q2R(A, version=2),
+           'Q_to_DCM(row view)': lambda: np.array([ahrs.Quaternion(A[i]).to_DCM() for i in range(n)]),
+           'DCM_q(row view)': lambda: np.array([np.asarray(ahrs.DCM(q=A[i])) for i in range(n)])}
+    for k, f in got.items():
+        R = np.asarray(f(), float)
+        if R.shape != (n, 3, 3) or cm.bad(R) or cm.maxabs(R, spec) > TOL:
+            return {'tag': f'{k}/memory-layout', 'observed': R, 'expected': spec}
+    return None
+
+
+ORACLES = {'layout': o_layout, 'route': o_route, 'hom': o_hom, 'rotate': o_rotate, 'batch': o_batch, 'dtype': o_dtype, 'state': o_state}
 
 
 def search(ctx, scale):
@@ -323,6 +386,18 @@ def search(ctx, scale):
             for route in _batch_routes():
                 inp = {'route': route, 'rows': rows}
                 ctx.check('batch', inp, cm_call(o_batch, inp), nontrivial_key=(route, N, rep))
+    # the same batches in other memory layouts (Fortran order, transposed 4xN, strided and reversed views)
+    for N in (1, 2, 3, 4, 6):
+        for li, layout in enumerate(LAYOUTS):
+            for rep in range(scale):
+                rows = [(qs[(rep * 17 + 5 * k + N + li) % len(qs)][1] * (1.0 if k % 2 else 1.5)).tolist() for k in range(N)]
+                inp = {'rows': rows, 'layout': layout}
+                ctx.check('layout', inp, cm_call(o_layout, inp), nontrivial_key=(layout, N, rep))
+    # rotating the zero vector and vectors of extreme magnitude (the sandwich must multiply, not validate, the pure quaternion)
+    for i, v in enumerate(([0.0, 0.0, 0.0], [1e-170, -2e-170, 3e-171], [1e-200, 0.0, 0.0], [3e154, -1e155, 2e154], [0.0, 0.0, 1e160])):
+        q = qs[(7 * i + 2) % len(qs)][1]
+        inp = {'q': q.tolist(), 'v': v}
+        ctx.check('rotate', inp, cm_call(o_rotate, inp), nontrivial_key=('extreme-v', i))
     # integer / list / float32 operands: axis-aligned and half-integer units are exactly representable
     exact = [[1, 0, 0, 0], [0, 1, 0, 0], [0, 0, -1, 0], [0, 0, 0, 1], [-1, 0, 0, 0]]
     others = [[0.5, 0.5, 0.5, 0.5], [0.5, -0.5, 0.5, -0.5], qs[-1][1].tolist(), qs[-2][1].tolist()]
